@@ -39,8 +39,8 @@ LEVEL_TEXT = (
 LEVEL_NOTE = (
     "Trusted: the POSIX model (cross-checked with glibc under C08); SimLock; "
     "line-granularity pre-emption in tz/tz.py, tz/_common.py and rrule.py. "
-    "Comparison with tzrange/tzstr is restricted to rule times inside "
-    "[0, 24 h) in standard time, where those are right (see C08 / D6); "
+    "The tzrange of the same rules is compared for every rule (since the "
+    "D6 repair also for rule times outside [0, 24 h) in standard time); "
     "rule times of 24:00 are rendered in RDATE form only.")
 TECHNIQUE = ("deterministic simulation of lookup-cache histories and thread "
              "schedules over shared iCalendar zones; POSIX model, tzrange and "
@@ -326,13 +326,13 @@ class ZoneUnderTest(object):
             self.limit = None
         self.range_ok = PX.rule_times_in_day(spec)
         self.tzrange = None
-        if self.range_ok:
-            from .c08 import to_rd
-            sav = spec["dstoff"] - spec["stdoff"]
-            self.tzrange = tz.tzrange(
-                spec["std"], spec["stdoff"], spec["dst"], spec["dstoff"],
-                start=to_rd(spec["start"], spec["start"][-1]),
-                end=to_rd(spec["end"], spec["end"][-1] - sav))
+        # tzrange of the same rules: for every rule since the D6 repair
+        from .c08 import to_rd
+        sav = spec["dstoff"] - spec["stdoff"]
+        self.tzrange = tz.tzrange(
+            spec["std"], spec["stdoff"], spec["dst"], spec["dstoff"],
+            start=to_rd(spec["start"], spec["start"][-1]),
+            end=to_rd(spec["end"], spec["end"][-1] - sav))
 
     def parse(self):
         tz = self.tz
